@@ -21,6 +21,7 @@ structure TAcc where
   mn : Nat := 0
   spawns : Nat := 0              -- threads created by execute(), as counted by the harness
   mdiv : List String := []       -- model-internal (policy) divergences: spawn rule, voluntary-exit rule
+  destroyed : Bool := false      -- the object was deleted (destructor without a preceding cleanup())
   nest : List (Nat × TaskH) := []  -- tasks submitted by task bodies / callbacks: (raw number - 2048, record)
 
 def fail (a : TAcc) (m : String) : TAcc := { a with err := some s!"op#{a.nops} {m}" }
@@ -203,7 +204,7 @@ def stepOp1 (a : TAcc) (line : String) : TAcc :=
   | ["cfg", kind, mn, mx, seed, pert] =>
     match boundedNat mn 64, boundedNat mx 64, seed.toNat?, boundedNat pert 1000 with
     | some mn, some mx, some _, some _ =>
-      if a.configured || !(kind == "pool" || kind == "wt") then bad else
+      if a.configured || a.destroyed || !(kind == "pool" || kind == "wt") then bad else
       let isPool := kind == "pool"
       let ok := if isPool then (Cfg.ok { min := mn, max := mx }) else true
       let a1 := expectExact a ("P init " ++ (if ok then "1" else "0"))
@@ -318,24 +319,26 @@ def stepOp1 (a : TAcc) (line : String) : TAcc :=
     | (some "P settle timeout", _) => fail a "settle: the pool did not become quiescent within the watchdog time (a task is never executed, or a worker never settles)"
     | (some l, _) => fail a s!"impl=[{l}] expected a settle line"
     | (none, _) => fail a "implementation output ends at settle (crash / timeout)"
-  | ["cleanup"] =>
-    if !a.configured then bad else
+  | [op] =>
+    if op == "fin" then (if a.fin then bad else takeEvents a) else
+    if !(op == "cleanup" || op == "destroy") || !a.configured then bad else
     match nextLine a with
-    | (none, _) => fail a "implementation output ends at cleanup (crash / timeout)"
+    | (none, _) => fail a s!"implementation output ends at {op} (crash / timeout)"
     | (some l, a') =>
       match words l with
-      | ["P", "cleanup", "ok", qb, qa, live] =>
-        match qb.toNat?, qa.toNat?, live.toNat? with
-        | some qb, some qa, some live =>
-          if live != 0 then fail a s!"cleanup() returned while {live} worker thread(s) had not finished (not joined)" else
+      | ["P", o, "ok", qb, qa, live, cs] =>
+        match qb.toNat?, qa.toNat?, live.toNat?, cs.toNat? with
+        | some qb, some qa, some live, some cs =>
+          if o != op then fail a s!"impl=[{l}] expected a {op} line" else
+          if live != 0 then fail a s!"{op}: cleanup returned while {live} worker thread(s) had not finished (not joined)" else
           let first := a'.h.cleanup.isNone
           { a' with ready := false, cleaned := true,
-                    h := if first then { a'.h with cleanup := some (qb, qa) } else a'.h,
-                    tags := "cleanup" :: a'.tags }
-        | _, _, _ => fail a s!"unparsable [{l}]"
+                    configured := op == "cleanup", destroyed := a'.destroyed || op == "destroy",
+                    h := if first then { a'.h with cleanup := some (qb, qa), cleanupCs := cs } else a'.h,
+                    tags := op :: (if first && cs != 0 then ["cleanup-cs"] else []) ++ a'.tags }
+        | _, _, _, _ => fail a s!"unparsable [{l}]"
       | ["P", "cleanup", "timeout"] => fail a "cleanup() did not return within the watchdog time: a worker is blocked for ever (DEADLOCK)"
-      | _ => fail a s!"impl=[{l}] expected a cleanup line"
-  | ["fin"] => if a.fin then bad else takeEvents a
+      | _ => fail a s!"impl=[{l}] expected a {op} line"
   | _ => bad
 
 /-- `offloop n dur`: the loop is stopped, the main thread submits n tasks with completion callbacks, waits for the
